@@ -58,8 +58,9 @@ func extractEmbeddedElems(
 
 		switch e := evaluated.(type) {
 		case *object.PanMap:
-			for _, pair := range *e.Pairs {
-				pairs = append(pairs, pair)
+			// NOTE: refer HashKeys to keep order (map iteration order is random)
+			for _, hash := range *e.HashKeys {
+				pairs = append(pairs, (*e.Pairs)[hash])
 			}
 			for _, nPair := range *e.NonHashablePairs {
 				if !existsNonHashableKey(env, nonHashablePairs, nPair) {
@@ -70,8 +71,12 @@ func extractEmbeddedElems(
 			}
 
 		case *object.PanObj:
-			for _, pair := range *e.Pairs {
-				pairs = append(pairs, pair)
+			// NOTE: refer sorted keys to keep order (map iteration order is random)
+			for _, hash := range *e.Keys {
+				pairs = append(pairs, (*e.Pairs)[hash])
+			}
+			for _, hash := range *e.PrivateKeys {
+				pairs = append(pairs, (*e.Pairs)[hash])
 			}
 
 		default:
